@@ -9,7 +9,7 @@ let rec int_of_pos = function XH -> 1 | XO p -> 2 * int_of_pos p | XI p -> 2 * i
 let int_of_z = function Z0 -> 0 | Zpos p -> int_of_pos p | Zneg p -> - (int_of_pos p)
 let int_of_n = function N0 -> 0 | Npos p -> int_of_pos p
 
-let toks : string array ref = ref [||]
+let toks : Stdlib.String.t array ref = ref [||]
 let pos = ref 0
 let nx () = let v = !toks.(!pos) in incr pos; v
 let ni () = int_of_string (nx ())
@@ -69,6 +69,20 @@ let jpacket syn_mss k =
   ^ ",\"dst_port\":" ^ ji t.t_dport ^ ",\"window\":" ^ ji t.t_win ^ ",\"seq\":" ^ ji t.t_seq ^ ",\"header_length\":" ^ ji t.t_hlen
   ^ ",\"quirks\":" ^ jn t.t_q ^ ",\"payload\":" ^ jtext t.t_payload ^ ",\"options\":" ^ jopts t.t_opts ^ "},\"psig\":" ^ jpsig (sig_of k syn_mss) ^ "}"
 
+let jwt = function WNormal -> "0" | WAny -> "1" | WMod -> "2" | WMss -> "3" | WMtu -> "4"
+let jsig s = "{\"ver\":" ^ ji s.s_ver ^ ",\"olen\":" ^ ji s.s_olen ^ ",\"ttl\":" ^ ji s.s_ttl ^ ",\"bad_ttl\":" ^ jb s.s_bad_ttl
+  ^ ",\"wtype\":" ^ jwt s.s_wtype ^ ",\"wsize\":" ^ ji s.s_wsize ^ ",\"wscale\":" ^ ji s.s_wscale ^ ",\"layout\":" ^ jl ji s.s_layout
+  ^ ",\"mss\":" ^ ji s.s_mss ^ ",\"eol\":" ^ ji s.s_eol_pad ^ ",\"pay\":" ^ ji s.s_pay ^ ",\"quirks\":" ^ jn s.s_quirks ^ "}"
+let jhsig h = "{\"version\":" ^ ji h.hs_version ^ ",\"headers\":" ^ jl (fun x -> "[" ^ jtext x.sh_name ^ "," ^ jb x.sh_optional ^ "," ^ jopt jtext x.sh_value ^ "]") h.hs_headers
+  ^ ",\"absent\":" ^ jl jtext h.hs_absent ^ ",\"software\":" ^ jopt jtext h.hs_software ^ "}"
+let jlabel = function
+  | LMtu n -> "{\"dump\":" ^ jtext n ^ ",\"sys\":null,\"generic\":false}"
+  | LOs (g, c, n, f, sys) as l -> "{\"dump\":" ^ jtext (dump_label l) ^ ",\"sys\":" ^ jl jtext sys ^ ",\"generic\":" ^ jb g ^ "}"
+let jsigv = function SMtu m -> ji m | STcp s -> jsig s | SHttp h -> jhsig h
+let jrec r = "{\"line\":" ^ ji r.rc_line ^ ",\"label\":" ^ jlabel r.rc_label ^ ",\"raw\":" ^ jtext r.rc_raw ^ ",\"sig\":" ^ jsigv r.rc_sig ^ "}"
+let jdb d = "{\"mtu\":" ^ jopt (jl jrec) d.d_mtu ^ ",\"tcp_req\":" ^ jopt (jl jrec) d.d_tcp_req ^ ",\"tcp_resp\":" ^ jopt (jl jrec) d.d_tcp_resp
+  ^ ",\"http_req\":" ^ jopt (jl jrec) d.d_http_req ^ ",\"http_resp\":" ^ jopt (jl jrec) d.d_http_resp ^ ",\"len\":" ^ ji (db_len d) ^ "}"
+
 let dispatch cmd =
   match cmd with
   | "win_multi" -> let p = read_pkt () in jpair ji jb (win_multi p)
@@ -97,6 +111,11 @@ let dispatch cmd =
   | "parse_options" -> let syn = nb () in let b = ntext () in jres jopts (parse_options b syn)
   | "extract" -> let v = nz () in let syn_mss = nz () in let b = ntext () in
       (match parse_packet v b with Unframed -> "\"unframed\"" | Framed r -> jres (jpacket syn_mss) r)
+  | "parse_file" -> let lines = nlist ntext in jres jdb (parse_file lines)
+  | "parse_tcp_sig" -> let t = ntext () in jres jsig (parse_tcp_sig t)
+  | "parse_http_sig" -> let t = ntext () in jres jhsig (parse_http_sig t)
+  | "parse_mtu_sig" -> let t = ntext () in jres ji (parse_mtu_sig t)
+  | "parse_os_label" -> let t = ntext () in jres jlabel (parse_os_label t)
   | _ -> failwith ("unknown command " ^ cmd)
 
 let () =
